@@ -95,8 +95,10 @@ pub fn entities_json_typed(rng: &mut Rng, gs: &GSchema, w: &GWorld, implicit_pct
 fn lookalike(rng: &mut Rng) -> GValue {
     let rec = |kv: Vec<(&str, GValue)>| GValue::Rec(kv.into_iter().map(|(k, v)| (k.to_string(), v)).collect());
     let s = |x: &str| GValue::Str(x.to_string());
-    match rng.below(14) {
+    match rng.below(16) {
         0 => rec(vec![("__entity", rec(vec![("type", s("A")), ("id", s("a"))]))]),
+        13 => rec(vec![("arg", s("y")), ("fn", s("unknown"))]),
+        14 => rec(vec![("r", rec(vec![("fn", s("unknown")), ("arg", s(""))]))]),
         1 => rec(vec![("__extn", rec(vec![("fn", s("decimal")), ("arg", s("1.0"))]))]),
         2 => rec(vec![("__entity", rec(vec![("type", s("A")), ("id", s("a")), ("x", GValue::Long(1))]))]),
         3 => rec(vec![("__expr", s("1 + 1"))]),
@@ -104,6 +106,7 @@ fn lookalike(rng: &mut Rng) -> GValue {
         5 => rec(vec![("fn", s("ip")), ("arg", s("127.0.0.1"))]),
         6 => rec(vec![("__entity", s("A::\"a\""))]),
         7 => rec(vec![("__extn", rec(vec![("fn", s("nosuchfn")), ("arg", s("x"))])), ("y", GValue::Long(0))]),
+        8 => rec(vec![("fn", s("unknown")), ("arg", s("x"))]),
         9 => rec(vec![("__extn", rec(vec![("fn", s("unknown")), ("arg", s("x"))])), ("note", GValue::Long(1))]),
         10 => rec(vec![("__entity", rec(vec![("type", s("A")), ("id", s("a"))])), ("note", GValue::Long(1))]),
         11 => rec(vec![("__extn", rec(vec![("fn", s("decimal")), ("arg", s("1.5"))])), ("note", s("n"))]),
@@ -311,6 +314,43 @@ fn schema_case(ctx: &mut CaseCtx) {
             }
         }
         Err(e) => ctx.violation("C10:schema-store:to_json-refused", format!("serialising failed: {}", bridge::err_chain(&e)), detail(json!({}))),
+    }
+    // the serialised store with only SOME of the schema's action entities left in: schema-based parsing supplies
+    // the schema's action entities, so the result must be the same store
+    if acts.len() >= 2 {
+        if let Ok(J::Array(items)) = ents.to_json_value() {
+            let is_act = |it: &J| it.get("uid").map(|u| acts.iter().any(|a| u.get("type").and_then(|t| t.as_str()) == Some(a.ty.as_str()) && u.get("id").and_then(|t| t.as_str()) == Some(a.id.as_str()))).unwrap_or(false);
+            let n_act = items.iter().filter(|it| is_act(it)).count();
+            if n_act >= 2 {
+                let keep = 1 + ctx.rng.below(n_act - 1); // 1..n_act-1 action entities stay
+                let mut order: Vec<usize> = (0..n_act).collect();
+                ctx.rng.shuffle(&mut order);
+                let kept: Vec<usize> = order.into_iter().take(keep).collect();
+                let mut seen = 0usize;
+                let part: Vec<J> = items
+                    .iter()
+                    .filter(|it| {
+                        if is_act(it) {
+                            seen += 1;
+                            kept.contains(&(seen - 1))
+                        } else {
+                            true
+                        }
+                    })
+                    .cloned()
+                    .collect();
+                let jp = J::Array(part);
+                match Entities::from_json_value(jp.clone(), Some(&schema)) {
+                    Ok(back) => {
+                        ctx.count("schema-store:roundtrip:some-actions-supplied");
+                        if !back.deep_eq(&ents) {
+                            ctx.violation("C10:schema-store-roundtrip:some-actions-supplied:not-deep-eq", format!("store parsed with the schema from JSON carrying {keep} of the {n_act} action entities differs from the store carrying all of them"), detail(json!({"json": jp})));
+                        }
+                    }
+                    Err(e) => ctx.violation("C10:schema-store-roundtrip:some-actions-supplied:does-not-parse", format!("refused: {}", bridge::err_chain(&e)), detail(json!({"json": jp}))),
+                }
+            }
+        }
     }
 
     // implicit forms (need the schema) vs explicit forms (no schema)
